@@ -2,6 +2,7 @@ import TarpcModel.Driver.C13
 import TarpcModel.Driver.Cli
 import TarpcModel.Driver.Srv
 import TarpcModel.Driver.C07
+import TarpcModel.Driver.C15Codec
 import TarpcModel.Driver.C19
 import TarpcModel.Driver.C20
 /-
@@ -18,6 +19,7 @@ def familyOf (name : String) : Option Family :=
   | "cli" => some cli
   | "srv" => some srv
   | "c07" => some c07
+  | "c15bin" => some c15bin
   | "c19" => some c19
   | "c20rr" => some c20rr
   | "c20hash" => some c20hash
